@@ -33,6 +33,15 @@ SEED_NOTES = {
     "C14-r4a": "caught after wire delivery of blocks was added (first run: missed everywhere).",
     "C15-r4b": "caught by C15 after streamed delivery was added (first run: missed by C15, caught by C14).",
     "C17-r4b": "caught by the start-up group added in the same round.",
+    "C03-r5b": "caught by C03 after carve-out filter cases were added (first run: missed by C03, caught by C09).",
+    "C05-r5a": "caught after blocks between NewChannel, SetupChannel and the request were added (first run: missed).",
+    "C05-r5b": "caught after the C05 wire group was added (first run: missed).",
+    "C06-r5b": "the C06 oracle leaves hashes with a known preimage outside the in-flight bound, so it cannot see a retry of a settled payment; caught by the C11 check (node.invoices not durable).",
+    "C12-r5b": "caught after invoices were proposed through the approver paths (first run: missed).",
+    "C18-r5a": "caught after world b got a permissive filter and secrets ahead of the state were requested (first run: missed).",
+    "C20-r5a": "confirmed by hand (the demonstration needs shuttle as a dev-dependency of vls-protocol-signer); caught after the wire-level validate request was added.",
+    "C20-r5b": "caught after invoice requests were added to the programs (first run: missed).",
+    "C19-r5b": "caught by the framed path added in the same round (reported through a fixed-case replay, hence the word regression in the detail).",
     "C09-r3b": "needs a reorg (block removal with a transaction-less filter proof) before the sweep; the C09 generator has no chain. Caught by the C14 check (connect + disconnect is not the identity).",
     "C10-r3a": "caught after the union machine got a channel funded by a real transaction (first run: missed by every check).",
     "C18-r3a": "caught by C18 after channels were also observed through their permanent id (first run: missed by C18, caught by C04 and C11).",
